@@ -374,6 +374,16 @@ class C04(Check):
         self.corr_decl_blocks(ctx, rng)
         self.corr_unknown(ctx, rng)
 
+    def search(self, ctx):
+        """an obligation or the correspondence broke and the quick oracle found nothing: the two
+        implementation-side oracles again on more sheets (the other streams cannot produce a violation)"""
+        ctx.search_mode = True
+        rng = ctx.sub_rng('c04-search')
+        sheets = [G.gen_sheet(rng) for _ in range(1000)]
+        self.corr_and_oracle_injection(ctx, rng, sheets)
+        if not ctx.violations:
+            self.corr_and_oracle_truncation(ctx, rng, sheets)
+
     # -- corpus --------------------------------------------------------------------------------------
     def corpus(self, ctx):
         path = os.path.join(ctx.verif, 'tools', 'corpus', 'C04', 'sheets.json')
@@ -501,7 +511,8 @@ class C04(Check):
 
     def judge_injection(self, ctx, text, off, where, g, orig, real):
         damaged = text[:off] + g.text + text[off:]
-        w = {'original': text, 'offset': off, 'where': where, 'garbage': g.text, 'damaged': damaged}
+        w = {'original': text, 'offset': off, 'where': where, 'garbage': g.text, 'garbage_invalid': g.invalid,
+             'damaged': damaged}
         ctx.count('garbage:' + g.kind)
         if isinstance(real, tuple):
             ctx.violate('parsing the damaged sheet raised', w, real, known=self.region(w))
@@ -641,7 +652,7 @@ class C04(Check):
     def replay(self, ctx, data):
         w = data.get('witness') or {}
         if 'damaged' in w and 'garbage' in w:
-            g = G.Garbage(w['garbage'], 'replay')
+            g = G.Garbage(w['garbage'], 'replay', w.get('garbage_invalid', False))
             reals = self.check_sheets(ctx, [w['original'], w['damaged']], 'replay')
             self.judge_injection(ctx, w['original'], w['offset'], w['where'], g, reals[0], reals[1])
         elif 'truncated' in w:
